@@ -19,49 +19,90 @@ from . import stubs
 
 
 class MemWriter:
-    """Writer half of an in-memory duplex pipe.  ``close`` signals EOF to both
-    directions, as a real transport's ``connection_lost`` does."""
+    """Writer half of an in-memory duplex pipe.
 
-    def __init__(self, own_reader, peer_reader, name):
+    ``close`` behaves like a socket transport: the connection is lost one loop
+    iteration later (``call_soon``), at which point both directions see EOF and
+    ``wait_closed`` returns -- in this order, so that a reader blocked on the
+    stream handles the EOF before the closer continues (as with
+    ``StreamReaderProtocol.connection_lost``)."""
+
+    def __init__(self, loop, own_reader, peer_reader, name):
+        self.loop = loop
         self.own = own_reader
         self.peer = peer_reader
         self.name = name
-        self.closed = False
+        self.closed = False          # close() called or connection lost
+        self.lost = False
         self.twin = None
+        self._waiters = []
+        self.die_after_write = None
+        self.lost_write = "error"
+        self.stop_requests = 0
 
     def write(self, data):
         if self.closed:
             return
-        if self.peer.at_eof() or getattr(self.peer, "_eof", False):
+        if b'["stop",' in data:
+            self.stop_requests += 1       # mosaik's stop request has been put on the wire
+        if getattr(self.peer, "_eof", False):
             return
         self.peer.feed_data(data)
+        if self.die_after_write is not None:
+            # the process exits right after this reply: connection lost, task gone
+            task, self.die_after_write = self.die_after_write, None
+            self.close()
+            task.cancel()
 
     async def drain(self):
-        if self.closed:
+        # a write after the connection was lost: the kernel either reports it
+        # (ConnectionResetError 'Connection lost' from drain) or buffers the data silently
+        # (first write to a dead peer); both happen with real sockets, so both are explored
+        if self.closed and self.lost_write == "error":
+            await asyncio.sleep(0)
             raise ConnectionResetError("Connection lost")
 
     def close(self):
         if not self.closed:
             self.closed = True
-            for r in (self.peer, self.own):
-                if not getattr(r, "_eof", False):
-                    r.feed_eof()
-            if self.twin is not None:
-                self.twin.closed = True
+            self.loop.call_soon(self._connection_lost)
+
+    def _connection_lost(self):
+        if self.lost:
+            return
+        self.lost = True
+        for r in (self.own, self.peer):
+            if not getattr(r, "_eof", False):
+                r.feed_eof()
+        if self.twin is not None:
+            self.twin.closed = True
+            self.twin.lost = True
+            for w in self.twin._waiters:
+                if not w.done():
+                    w.set_result(None)
+        for w in self._waiters:
+            if not w.done():
+                w.set_result(None)
 
     def is_closing(self):
         return self.closed
 
     async def wait_closed(self):
-        pass
+        if self.lost:
+            return
+        w = self.loop.create_future()
+        self._waiters.append(w)
+        await w
 
 
 def make_pipe(loop, name):
     r_m = asyncio.StreamReader(loop=loop)   # mosaik reads here
     r_s = asyncio.StreamReader(loop=loop)   # simulator reads here
-    w_m = MemWriter(r_m, r_s, name + ":m")  # mosaik writes into r_s
-    w_s = MemWriter(r_s, r_m, name + ":s")  # simulator writes into r_m
+    w_m = MemWriter(loop, r_m, r_s, name + ":m")  # mosaik writes into r_s
+    w_s = MemWriter(loop, r_s, r_m, name + ":s")  # simulator writes into r_m
     w_m.twin, w_s.twin = w_s, w_m
+    if stubs.CTX is not None:
+        w_m.lost_write = w_s.lost_write = stubs.CTX.cfg.get("lost_write", "error")
     return (r_m, w_m), (r_s, w_s)
 
 
@@ -87,6 +128,7 @@ async def start_mem(mosaik_config, sim_name, sim_config, mosaik_remote):
             await ch.close()
 
     task = loop.create_task(remote_main(), name=f"mem remote {sim_name}")
+    sim._mem_task = task
     ch_m = Channel(r_m, w_m, name=sim_name)
     if ctx is not None:
         ctx.remote_tasks.append(task)
